@@ -286,9 +286,9 @@ Props/Properties_C02.vos Props/Properties_C02.vok Props/Properties_C02.required_
 Props/Properties_C03.vo Props/Properties_C03.glob Props/Properties_C03.v.beautified Props/Properties_C03.required_vo: Props/Properties_C03.v Engine/PositionRep.vo Engine/RepAbs.vo Engine/RepProofs.vo Engine/RepRoundTrip.vo Engine/RepRoundTripNormal.vo Engine/Encoding.vo Engine/RepRefine.vo Engine/RepRefineLegal.vo Engine/RepRoundTripLegal.vo Chess/Rules.vo Chess/ValidStep.vo Chess/GameInv.vo Engine/KeyScratchInit.vo Engine/GameRefine.vo Engine/KeyScratch.vo Engine/KeyScratchMove.vo Engine/UndoInv.vo
 Props/Properties_C03.vio: Props/Properties_C03.v Engine/PositionRep.vio Engine/RepAbs.vio Engine/RepProofs.vio Engine/RepRoundTrip.vio Engine/RepRoundTripNormal.vio Engine/Encoding.vio Engine/RepRefine.vio Engine/RepRefineLegal.vio Engine/RepRoundTripLegal.vio Chess/Rules.vio Chess/ValidStep.vio Chess/GameInv.vio Engine/KeyScratchInit.vio Engine/GameRefine.vio Engine/KeyScratch.vio Engine/KeyScratchMove.vio Engine/UndoInv.vio
 Props/Properties_C03.vos Props/Properties_C03.vok Props/Properties_C03.required_vos: Props/Properties_C03.v Engine/PositionRep.vos Engine/RepAbs.vos Engine/RepProofs.vos Engine/RepRoundTrip.vos Engine/RepRoundTripNormal.vos Engine/Encoding.vos Engine/RepRefine.vos Engine/RepRefineLegal.vos Engine/RepRoundTripLegal.vos Chess/Rules.vos Chess/ValidStep.vos Chess/GameInv.vos Engine/KeyScratchInit.vos Engine/GameRefine.vos Engine/KeyScratch.vos Engine/KeyScratchMove.vos Engine/UndoInv.vos
-Props/Properties_C04.vo Props/Properties_C04.glob Props/Properties_C04.v.beautified Props/Properties_C04.required_vo: Props/Properties_C04.v Engine/PositionRep.vo Engine/RepAbs.vo Engine/RepProofs.vo Engine/RepRefine.vo Engine/RepRefineLegal.vo Engine/RepRoundTrip.vo Engine/KeyScratch.vo Engine/KeyScratchMove.vo Engine/KeyScratchInit.vo Chess/Rules.vo Chess/History.vo Chess/HistoryKeys.vo Chess/ValidStep.vo Chess/GameInv.vo Engine/HistoryRefine.vo Engine/GameRefine.vo
-Props/Properties_C04.vio: Props/Properties_C04.v Engine/PositionRep.vio Engine/RepAbs.vio Engine/RepProofs.vio Engine/RepRefine.vio Engine/RepRefineLegal.vio Engine/RepRoundTrip.vio Engine/KeyScratch.vio Engine/KeyScratchMove.vio Engine/KeyScratchInit.vio Chess/Rules.vio Chess/History.vio Chess/HistoryKeys.vio Chess/ValidStep.vio Chess/GameInv.vio Engine/HistoryRefine.vio Engine/GameRefine.vio
-Props/Properties_C04.vos Props/Properties_C04.vok Props/Properties_C04.required_vos: Props/Properties_C04.v Engine/PositionRep.vos Engine/RepAbs.vos Engine/RepProofs.vos Engine/RepRefine.vos Engine/RepRefineLegal.vos Engine/RepRoundTrip.vos Engine/KeyScratch.vos Engine/KeyScratchMove.vos Engine/KeyScratchInit.vos Chess/Rules.vos Chess/History.vos Chess/HistoryKeys.vos Chess/ValidStep.vos Chess/GameInv.vos Engine/HistoryRefine.vos Engine/GameRefine.vos
+Props/Properties_C04.vo Props/Properties_C04.glob Props/Properties_C04.v.beautified Props/Properties_C04.required_vo: Props/Properties_C04.v Engine/PositionRep.vo Engine/RepAbs.vo Engine/RepProofs.vo Engine/RepRefine.vo Engine/RepRefineLegal.vo Engine/RepRoundTrip.vo Engine/KeyScratch.vo Engine/KeyScratchMove.vo Engine/KeyScratchInit.vo Chess/Rules.vo Chess/History.vo Chess/HistoryKeys.vo Chess/ValidStep.vo Chess/GameInv.vo Engine/HistoryRefine.vo Engine/GameRefine.vo Engine/UndoInv.vo
+Props/Properties_C04.vio: Props/Properties_C04.v Engine/PositionRep.vio Engine/RepAbs.vio Engine/RepProofs.vio Engine/RepRefine.vio Engine/RepRefineLegal.vio Engine/RepRoundTrip.vio Engine/KeyScratch.vio Engine/KeyScratchMove.vio Engine/KeyScratchInit.vio Chess/Rules.vio Chess/History.vio Chess/HistoryKeys.vio Chess/ValidStep.vio Chess/GameInv.vio Engine/HistoryRefine.vio Engine/GameRefine.vio Engine/UndoInv.vio
+Props/Properties_C04.vos Props/Properties_C04.vok Props/Properties_C04.required_vos: Props/Properties_C04.v Engine/PositionRep.vos Engine/RepAbs.vos Engine/RepProofs.vos Engine/RepRefine.vos Engine/RepRefineLegal.vos Engine/RepRoundTrip.vos Engine/KeyScratch.vos Engine/KeyScratchMove.vos Engine/KeyScratchInit.vos Chess/Rules.vos Chess/History.vos Chess/HistoryKeys.vos Chess/ValidStep.vos Chess/GameInv.vos Engine/HistoryRefine.vos Engine/GameRefine.vos Engine/UndoInv.vos
 Props/Properties_C05.vo Props/Properties_C05.glob Props/Properties_C05.v.beautified Props/Properties_C05.required_vo: Props/Properties_C05.v Gen/Consts.vo Engine/SearchDriver.vo Engine/SearchDriverProofs.vo Chess/Rules.vo Engine/SearchNode.vo Engine/SearchNodeProofs.vo
 Props/Properties_C05.vio: Props/Properties_C05.v Gen/Consts.vio Engine/SearchDriver.vio Engine/SearchDriverProofs.vio Chess/Rules.vio Engine/SearchNode.vio Engine/SearchNodeProofs.vio
 Props/Properties_C05.vos Props/Properties_C05.vok Props/Properties_C05.required_vos: Props/Properties_C05.v Gen/Consts.vos Engine/SearchDriver.vos Engine/SearchDriverProofs.vos Chess/Rules.vos Engine/SearchNode.vos Engine/SearchNodeProofs.vos
